@@ -43,6 +43,9 @@ std::uint8_t stream_byte(int stream, std::uint64_t i);
 
 struct World;
 
+// thrown by the scenario op `throw` from inside a handler
+struct scenario_exception {};
+
 // ---- network configuration built from the scenario's declarations ----------
 
 // a sink that logs what passes and forwards it
